@@ -299,7 +299,8 @@ struct MemWorld : World
     int slots = r.chance(1, 3) ? 2 : 8;
     int mmu = r.chance(1, 3) && logsz <= 16;
     int reuse = r.chance(1, 3);
-    p.cfg = { logsz, registry, nsbx, slots, mmu, reuse };
+    int total_as_mask = r.chance(1, 4);
+    p.cfg = { logsz, registry, nsbx, slots, mmu, reuse, total_as_mask };
     int64_t size = 1LL << logsz;
     int n = (int)r.range(6, thorough ? 60 : 45);
     // op-mix (swarm): base weights then random muting
@@ -1048,6 +1049,24 @@ struct MemWorld : World
       return;
     int s = pick_sbx(op.a[0]);
     SbxState& st = S[(size_t)s];
+    if (st.state == 1 && (uint64_t)op.a[1] % 3 == 0) {
+      // any byte of the region as the example of a context-free translation: first, last, or anywhere
+      unsigned cls = (unsigned)((uint64_t)op.a[2] % 3);
+      uint64_t boff = cls == 0 ? 0 : cls == 1 ? st.size() - 1 : (uint64_t)op.a[3] & (st.size() - 1);
+      char* addr = reinterpret_cast<char*>(st.base() + boff);
+      uint64_t before = Sbx::n_registry;
+      Sbx::last_registry_inst = -2;
+      PT rep = 0;
+      Outcome o = attempt([&] { rep = gp_bits(Sandbox::get_sandboxed_pointer_no_ctx<char*>(addr, addr)); });
+      C->ev("probe registry #%d byte %llu -> %s inst %d", s, (unsigned long long)boff, oname(o), Sbx::last_registry_inst);
+      C->probe(cls == 1 ? "registry_asked_about_last_byte_of_region" : "registry_asked_about_arbitrary_byte_of_region");
+      if (o != OK || (Sbx::n_registry != before && Sbx::last_registry_inst != st.impl()->inst_id))
+        C->violate("C14", "live_sandbox_not_found_from_its_address@probe_registry", "byte %llu of the region of sandbox #%d as example: %s, registry answered inst %d, expected %d: %s", (unsigned long long)boff, s, oname(o),
+                   Sbx::last_registry_inst, st.impl()->inst_id, o != OK ? g_last_abort_msg.c_str() : "");
+      else if ((uint64_t)rep != boff)
+        C->violate("C04", "wrong_representation@probe_registry", "byte %llu of the region translates to %llu", (unsigned long long)boff, (unsigned long long)rep);
+      return;
+    }
     if (st.state == 1) {
       // make the cell non-zero through the guest view, then load through it
       PT off = (PT)((uintptr_t)st.scratch.UNSAFE_unverified() - st.base());
@@ -2513,6 +2532,9 @@ struct MemWorld : World
     Sbx::n_registry = 0;
     Sbx::cfg.mmu = p.cfg.size() > 4 && p.cfg[4] && logsz <= 16;
     Sbx::cfg.reuse = p.cfg.size() > 5 && p.cfg[5];
+    Sbx::cfg.total_as_mask = p.cfg.size() > 6 && p.cfg[6];
+    if (Sbx::cfg.total_as_mask)
+      c.probe("backend_reports_total_memory_as_mask");
     c.ev("cfg size=2^%d registry=%d nsbx=%d slots=%d mmu=%d", logsz, (int)registry, nsbx, Sbx::cfg.slots, (int)Sbx::cfg.mmu);
     S.clear();
     H.clear();
